@@ -944,6 +944,10 @@ func Run(d *fw.Driver, res *fw.Result, seed int64, thorough bool) error {
 	if err := ReverseSubAfterLoss(res, seed, base); err != nil {
 		return err
 	}
+	base += 1000
+	if err := NoHandlerClient(res, seed, base); err != nil {
+		return err
+	}
 	if err := FormatterOrder(res); err != nil {
 		return err
 	}
